@@ -90,26 +90,50 @@ fn subclasses(class: &str) -> Vec<String> {
         .collect()
 }
 
-fn one_instance(dump: &J) -> J {
-    dump["roots"][0]["props"].clone()
+/// The instance under test is written four times in one file: on its own, as first and second child of a
+/// parent of the same class that carries BOTH the legacy and the new property, and as first child of a
+/// parent that carries only the legacy one. Its decoded properties must not depend on where it stands
+/// (whatever a writer remembers about one instance must not leak into its neighbours).
+fn positions(dump: &J) -> Vec<(&'static str, J)> {
+    vec![
+        ("alone", dump["roots"][0]["props"].clone()),
+        ("first-child-of-both", dump["roots"][1]["children"][0]["props"].clone()),
+        ("second-child-of-both", dump["roots"][1]["children"][1]["props"].clone()),
+        ("first-child-of-legacy-only", dump["roots"][2]["children"][0]["props"].clone()),
+    ]
 }
 
-fn run_write(class: &str, props: &[(String, Variant)], fmt: &str) -> Result<Result<J, String>, crate::report::PanicInfo> {
-    let mut b = InstanceBuilder::new(class).with_name("n");
-    for (k, v) in props {
-        b.add_property(k.as_str(), v.clone());
+type WriteOut = Vec<(&'static str, J)>;
+
+fn run_write(class: &str, props: &[(String, Variant)], ctx: &[(String, Variant)], legacy: &(String, Variant), fmt: &str) -> Result<Result<WriteOut, String>, crate::report::PanicInfo> {
+    let t = || {
+        let mut b = InstanceBuilder::new(class).with_name("n");
+        for (k, v) in props {
+            b.add_property(k.as_str(), v.clone());
+        }
+        b
+    };
+    let mut both = InstanceBuilder::new(class).with_name("both");
+    for (k, v) in ctx {
+        both.add_property(k.as_str(), v.clone());
     }
-    let dom = WeakDom::new(InstanceBuilder::new("DataModel").with_child(b));
+    let only = InstanceBuilder::new(class).with_name("only").with_property(legacy.0.as_str(), legacy.1.clone());
+    let dom = WeakDom::new(
+        InstanceBuilder::new("DataModel")
+            .with_child(t())
+            .with_child(both.with_child(t()).with_child(t()))
+            .with_child(only.with_child(t())),
+    );
     let roots = dom.root().children().to_vec();
     catch(|| {
         if fmt == "bin" {
             let bytes = crate::rt::write_binary(&dom, &roots, rbx_binary::CompressionType::None).map_err(|e| format!("write: {}", e))?;
             let d = rbx_binary::from_reader(&bytes[..]).map_err(|e| format!("read: {}", e))?;
-            Ok(one_instance(&canon::dump_decoded(&d)))
+            Ok(positions(&canon::dump_decoded(&d)))
         } else {
             let bytes = crate::rt::write_xml(&dom, &roots, XmlMode::Default).map_err(|e| format!("write: {}", e))?;
             let d = rbx_xml::from_reader_default(&bytes[..]).map_err(|e| format!("read: {}", e))?;
-            Ok(one_instance(&canon::dump_decoded(&d)))
+            Ok(positions(&canon::dump_decoded(&d)))
         }
     })
 }
@@ -159,28 +183,40 @@ pub fn main(a: &Args) {
                         continue;
                     }
                     let mut r = Rng::derive(seed, "c15", n);
-                    let explicit: Option<Variant> = if presence == 1 { g.gen(&mut r, new_travel.declared_ty) } else { None };
                     // whitespace-only text inside XML elements is C05's subject (a foreign writer's plain
                     // text node of only blanks); keep it out of the migration comparison
                     let ws = |s: &str| !s.is_empty() && s.trim().is_empty();
-                    let explicit = match explicit {
-                        Some(Variant::Content(c)) if matches!(c.value(), ContentType::Uri(u) if ws(u)) => Some(Variant::Content(Content::from_uri("ws"))),
-                        Some(Variant::Font(mut f)) => {
-                            if ws(&f.family) {
-                                f.family = "ws".into();
+                    let norm = |explicit: Option<Variant>| -> Option<Variant> {
+                        let explicit = match explicit {
+                            Some(Variant::Content(c)) if matches!(c.value(), ContentType::Uri(u) if ws(u)) => Some(Variant::Content(Content::from_uri("ws"))),
+                            Some(Variant::Font(mut f)) => {
+                                if ws(&f.family) {
+                                    f.family = "ws".into();
+                                }
+                                if f.cached_face_id.as_deref().map(ws).unwrap_or(false) {
+                                    f.cached_face_id = Some("ws".into());
+                                }
+                                Some(Variant::Font(f))
                             }
-                            if f.cached_face_id.as_deref().map(ws).unwrap_or(false) {
-                                f.cached_face_id = Some("ws".into());
-                            }
-                            Some(Variant::Font(f))
+                            other => other,
+                        };
+                        match explicit {
+                            Some(Variant::Content(c)) if matches!(c.value(), ContentType::Object(_)) => Some(Variant::Content(Content::from_uri("rbxassetid://77"))),
+                            Some(Variant::CFrame(c)) => Some(Variant::CFrame(crate::expect::snap_cframe(&c))),
+                            other => other,
                         }
-                        other => other,
                     };
-                    let explicit = match explicit {
-                        Some(Variant::Content(c)) if matches!(c.value(), ContentType::Object(_)) => Some(Variant::Content(Content::from_uri("rbxassetid://77"))),
-                        Some(Variant::CFrame(c)) => Some(Variant::CFrame(crate::expect::snap_cframe(&c))),
-                        other => other,
-                    };
+                    let explicit: Option<Variant> = if presence == 1 { norm(g.gen(&mut r, new_travel.declared_ty)) } else { None };
+                    // the neighbouring instance that carries both spellings (another legacy value where there is one)
+                    let ctx_legacy = values[if vi == 0 { 1 % values.len() } else { 0 }].clone();
+                    let mut ctx = vec![(m.legacy.clone(), ctx_legacy)];
+                    if let Some(cv) = norm(g.gen(&mut r, new_travel.declared_ty)) {
+                        if r.chance(1, 2) {
+                            ctx.insert(0, (m.new_name.clone(), cv));
+                        } else {
+                            ctx.push((m.new_name.clone(), cv));
+                        }
+                    }
                     let mut props = vec![(m.legacy.clone(), lv.clone())];
                     if let Some(e) = &explicit {
                         if r.chance(1, 2) {
@@ -203,7 +239,7 @@ pub fn main(a: &Args) {
                     let no = |_: Ref| J::Null;
                     let mut results: BTreeMap<&str, J> = BTreeMap::new();
                     for fmt in ["bin", "xml"] {
-                        match run_write(class, &props, fmt) {
+                        match run_write(class, &props, &ctx, &(m.legacy.clone(), lv.clone()), fmt) {
                             Err(p) => rep.violation(&format!("C15:w-{}:{}", fmt, panic_sig(&p)), &format!("{}: {}", label, p.msg), replay.clone(), J::Null),
                             Ok(Err(e)) => {
                                 let ec: String = e.split(':').take(2).collect::<Vec<_>>().join(":").chars().filter(|c| !c.is_ascii_digit()).take(60).collect();
@@ -214,8 +250,20 @@ pub fn main(a: &Args) {
                                     J::Null,
                                 );
                             }
-                            Ok(Ok(p)) => {
-                                results.insert(fmt, p);
+                            Ok(Ok(ps)) => {
+                                rep.count("positions_compared");
+                                let alone = ps[0].1.clone();
+                                for (pos, p) in ps.iter().skip(1) {
+                                    if let Some((path, e, gv)) = canon::diff(&alone, p) {
+                                        rep.violation(
+                                            &format!("C15:w-{}:depends-on-neighbours:{}:{}", fmt, m.legacy, pos),
+                                            &format!("{}: the same instance written as {} decodes differently at {}: alone {} there {}", label, pos, path, e, gv),
+                                            replay.clone(),
+                                            J::Null,
+                                        );
+                                    }
+                                }
+                                results.insert(fmt, alone);
                             }
                         }
                     }
